@@ -2,7 +2,7 @@
 # usage: tools_reverify_seed.sh <ID>   e.g. C14_1 — re-confirm a kept seeded change on the current /repo HEAD:
 # demo passes on HEAD, fails with the patch; the pinned test suite still passes with the patch.
 id=$1
-out=/verif/seeded/$id
+out=${SEED_BASE:-/verif/seeded}/$id
 wt=/tmp/wtv/$id
 mkdir -p /tmp/wtv
 git -C /repo worktree add -q --detach $wt HEAD 2>/dev/null || { echo "worktree failed"; exit 1; }
